@@ -401,8 +401,12 @@ func crashViolation(id, output, marker string, seed int64) *h.VRec {
 			!strings.Contains(l, "(") || !strings.HasSuffix(l, ")") { // not a stack frame (PC=..., "signal arrived during cgo execution")
 			continue
 		}
-		fn = l
-		break
+		// the first frame that belongs to goProbe or to the harness decides: a panic raised inside a
+		// dependency (gotools, the compression libraries) on behalf of goProbe code is goProbe's
+		if strings.HasPrefix(l, "github.com/els0r/goProbe") || strings.HasPrefix(l, "verif/") {
+			fn = l
+			break
+		}
 	}
 	if j := strings.LastIndex(fn, "("); j > 0 {
 		fn = fn[:j]
